@@ -50,15 +50,18 @@ ASSUMPTIONS = [
 
 
 def floors(tier):
+    # ~10 % of what a complete quick run reaches (a loaded machine completes only part of the plan)
     return {
-        "deliveries_checked": 5000,
-        "splittings_enumerated": 5000,
-        "exh_streams_complete": 20,
-        "blocked_resumes_observed": 50,
-        "rt_cases": 5,
-        "rt_streams_compared": 20,
-        "rt_blocked_resumes_observed": 1,
-        "sender_cases": 5,
+        "deliveries_checked": 30000,
+        "splittings_enumerated": 20000,
+        "exh_streams_complete": 5,
+        "blocked_resumes_observed": 500,
+        "sender_cases": 20,
+        "stub_roundtrip_streams_compared": 50,
+        "frames_cases": 10,
+        "rt_cases": 10,
+        "rt_streams_compared": 50,
+        "rt_blocked_resumes_observed": 3,
     }
 
 
